@@ -27,6 +27,7 @@ def run(tier="quick"):
     chk.rule("P2", "handler calls receive the right state and their result is stored back")
     chk.rule("P6", "a function that takes a new table entry into use stores every field of it")
     chk.rule("P5", "no NULL constant is passed to an ASSERT-guarded parameter")
+    chk.rule("P7", "only a line that did not fit into the line buffer is discarded (not the last line of a file without a final newline)")
     chk.rule("P4", "parse: fclose before pop, push after successful open")
     chk.rule("I1", "no uninitialised local is used")
     prog = facts.extract(only=["conf.c"])
@@ -42,6 +43,7 @@ def run(tier="quick"):
     nh = R.check_handler_protocol(chk, u)
     np4 = R.check_parse_close_before_pop(chk, u)
     R.check_null_literal_args(chk, prog, u, "P5")
+    chk.count("line_discard_sites", R.check_discarded_lines(chk, u, "P7"), floor=1)
     np6 = R.check_push_initialises(chk, prog, u, "P6")
     chk.count("entry_taking_functions", np6, floor=3)
     diags = facts.clang_diagnostics(warn_flags=["-Wuninitialized", "-Wsometimes-uninitialized"], units=["conf.c"])
